@@ -12,7 +12,7 @@ class ChanSpec(diffprop.Spec):
     # (scenarios, random schedules each, dfs scenarios, dfs preemption bound, dfs cap)
     budgets = dict(quick=(60, 12, 6, 2, 400), thorough=(1500, 40, 60, 3, 4000))
     counts = dict(quick=1, thorough=1)
-    escalate_factor = 4
+    escalate_factor = 2
 
     def harness(self, seed, count, tier):
         n, scheds, ndfs, bound, cap = self.budgets[tier]
